@@ -658,8 +658,28 @@ func runC16(c *CaseCtx) *CaseResult {
 				if err == nil || !errors.Is(err, ErrBlob) {
 					return fail(viol("parallel-error", "commit with a failing storable (%d workers, relaxed %v) returned %v", workers, relaxed, err))
 				}
-				if !relaxed && len(w.led.regs) != 0 {
-					return fail(viol("parallel-error", "deterministic commit wrote %d registers although encoding failed", len(w.led.regs)))
+				if !relaxed {
+					// same registers as doing the work on one goroutine: identical state, FastCommit(1)
+					wr, _, err := c16State(stateSeed, nblobs)
+					if err != nil {
+						return fail(err)
+					}
+					blobEncodeHook.Store(func(id uint64) error {
+						if id == bad {
+							return ErrBlob
+						}
+						return nil
+					})
+					wr.led.inCommit = true
+					errRef := wr.ps.FastCommit(1)
+					wr.led.inCommit = false
+					blobEncodeHook.Store((func(uint64) error)(nil))
+					if errRef == nil || !errors.Is(errRef, ErrBlob) {
+						return fail(viol("parallel-error", "one-worker commit with a failing storable returned %v", errRef))
+					}
+					if regsDigest(w.led.Snapshot()) != regsDigest(wr.led.Snapshot()) {
+						return fail(viol("parallel-error", "after an encoding failure the %d-worker commit left %d registers, the one-worker commit %d", workers, len(w.led.regs), len(wr.led.regs)))
+					}
 				}
 				res.Obs["encode-error-scenarios"]++
 			case 1: // ledger failure on the k-th store while workers may still be encoding
